@@ -133,7 +133,10 @@ class C16(PropertyCheck):
     rule = ("histories (hand-made corner cases + random, 1..6 epochs, metrics on a 3-decimal grid, inf at "
             "epoch 1, ties with the best / with the previous epoch) x keep_last_and_best_only x 7 file-name "
             "format pairs (with {epoch}, constant, formatted from a metric) x best_is_train x variants "
-            "(early-stopping + reduce-lr parameters active, a user entry, explicit epoch= argument) x crash "
+            "(early-stopping + reduce-lr parameters active, a user entry, explicit epoch= argument; reduce-lr alone "
+            "with 1..4 reductions of the optimizer's learning rate in one run, the rate taken from the parameters "
+            "or from the optimizer's defaults, reduction epochs that are / are not the best epoch) x optimizer "
+            "(SGD with momentum + weight decay, Adam; two parameter groups; genuine steps every epoch) x crash "
             "schedules: none; EVERY mutating call k of EVERY update as single crash point - open(csv), the "
             "write of the header line and the write of the data row are three separate calls -, torn "
             "torch.save and torn data row, hard kills (later mutations suppressed) and soft interrupts "
@@ -151,6 +154,9 @@ class C16(PropertyCheck):
         "never equal a checkpoint name",
         "training is deterministic (the state saved for epoch e is a function of e); history rows are a "
         "function of the metric history (C15)",
+        "full states are compared bit for bit with the uninterrupted run of the SAME implementation (same float "
+        "operations in the same order); learning rates are dyadic or decimal-short so that the 5-significant-"
+        "digit learning-rate column of the history is exact (its rounding is C15's known finding)",
         "non-distributed controller (rank -1); epochs are consecutive (epoch=None)",
     ]
     exhaustive = {"quick": False, "thorough": False}
@@ -198,6 +204,8 @@ class C16(PropertyCheck):
                     c = {"keep_lb": keep, "model_fmt": mf, "optim_fmt": of, "vals": h, "sched": []}
                     if fname == "default" and hi % 4 == 3:
                         c["best_is_train"] = True
+                    if hi % 3 == 2:
+                        c["optim"] = "adam"
                     yield c
         # variants of the call: options that change what a history row holds / how update_for_epoch is called
         mf, of = FORMATS["default"]
@@ -207,14 +215,32 @@ class C16(PropertyCheck):
                 yield {"keep_lb": keep, "model_fmt": mf, "optim_fmt": of, "vals": h, "sched": [],
                        "user_entry": True, "explicit_epoch": True, "best_is_train": not keep}
         # early stopping + learning-rate reduction: with these metrics the lr is halved at epoch 3 (and the
-        # optimizer's param group rewritten), the countdown columns change at every epoch
+        # optimizer's param groups rewritten), the countdown columns change at every epoch; the rate comes
+        # from TrainingStateParams (0.1), the fresh optimizer of every process is built with a junk rate
         es_h = [[[rng.randrange(100, 1000), v] for v in h] for h in
                 ([[500, 510, 520, 530, 300]] if tier == "quick" else
                  [[500, 510, 520, 530, 300], [500, 520, 530, 540, 300, 560], [500, 400, 450, 300, 350, 360]])]
         for h in es_h:
-            for keep in ((True,) if tier == "quick" else (True, False)):
+            for keep, opt in ((True, "sgd"), (False, "adam")):
                 yield {"keep_lb": keep, "model_fmt": mf, "optim_fmt": of, "vals": h, "sched": [],
-                       "extra_params": dict(ES_RLR)}
+                       "extra_params": dict(ES_RLR), "optim": opt}
+        # learning-rate reduction alone, the rate taken from the optimizer's defaults: several reductions in
+        # one run, so that every crash point of the update FOLLOWING a reduction restarts from a checkpoint
+        # whose optimizer must carry the reduced rate; [500, 490, 480, ..]: the reduction epochs 2 and 3 are
+        # new best epochs too (improvement below the threshold); [400, 500, 300, 350]: best epoch 3 is not a
+        # reduction epoch, the last one is; + random walks around the threshold
+        rl = [[500, 490, 480, 600, 610], [400, 500, 300, 350]]
+        for _ in range(1 if tier == "quick" else 6):
+            h = [rng.choice([300, 500, 700])]
+            for _ in range(rng.randint(2, 3 if tier == "quick" else 5)):
+                h.append(max(100, h[-1] + rng.choice([-100, -60, -20, -10, 10, 30, 80])))
+            rl.append(h)
+        for i, h in enumerate(rl):
+            hh = [[rng.randrange(100, 1000), v] for v in h]
+            for keep, opt in (((i % 2 == 0, OPTIMS[(i + 1) % 2]),) if tier == "quick" else
+                              ((True, OPTIMS[i % 2]), (False, OPTIMS[(i + 1) % 2]))):
+                yield {"keep_lb": keep, "model_fmt": mf, "optim_fmt": of, "vals": hh, "sched": [],
+                       "extra_params": dict(RLR), "optim": opt}
 
     @staticmethod
     def collides(case):
@@ -323,15 +349,46 @@ class C16(PropertyCheck):
 
     # ------------------------------------------------------------------ implementation
     def reference(self, case):
-        """Uninterrupted run with the same parameters and metrics: history text, final state."""
+        """Uninterrupted run with the same parameters and metrics: history text, what happened, and for
+        every epoch e it completed (0 = right after the initialising load): `mem[e]` the full state held
+        in memory after update e (canonical, bit exact), `ids[e]` its identity (w, tag, lr), `lrs[e]` the
+        learning rate the history row records, `digs[e]` the digests of the two state dicts (= what the
+        checkpoint files of epoch e must hold)."""
         key = json.dumps({k: case[k] for k in case if k != "sched"}, sort_keys=True)
         if key not in self._ref:
             with R.Workspace() as ws:
-                s = R.session(dict(case, sched=[]), ws, None)
-                self._ref[key] = {"csv": R.read_csv(ws), "status": s}
+                ups = []
+                s = R.session(dict(case, sched=[]), ws, None, record=ups)
+                ref = {"csv": R.read_csv(ws), "mem": [], "ids": [], "lrs": [], "digs": []}
+            if "start_full" in s and s.get("start_epoch") == 0:
+                ref["mem"] = [s.pop("start_full")] + [u.pop("mem_full") for u in ups]
+                ref["ids"] = [s["start_state"]] + [u["mem"] for u in ups]
+                lr0 = s.get("start_row_lr")
+                ref["lrs"] = [lr0 if lr0 is not None else s["start_state"][2]] + [u["row_lr"] for u in ups]
+                ref["digs"] = [[R.digest(x["model"]), R.digest(x["optim"])] for x in ref["mem"]]
+            ref["status"] = s
+            self._ref[key] = ref
             if len(self._ref) > 4000:
                 self._ref.pop(next(iter(self._ref)))
         return self._ref[key]
+
+    def lr_plan(self, case):
+        """-> (lrs, tab, red): the learning rate after every epoch 0..n of the uninterrupted run (beyond
+        the epochs it completed: the last one), the table of distinct rates in order of appearance (what
+        the Lean model's learning-rate ids stand for; id 0 = the initial rate), and for every epoch
+        1..n the id the update writes into the optimizer (None: the rate does not change)."""
+        n = len(case["vals"])
+        lrs = list(self.reference(case)["lrs"])[: n + 1] or [R.lr0_of(case)]
+        lrs += [lrs[-1]] * (n + 1 - len(lrs))
+        tab, red = [lrs[0]], []
+        for e in range(1, n + 1):
+            if lrs[e] != lrs[e - 1]:
+                if lrs[e] not in tab:
+                    tab.append(lrs[e])
+                red.append(tab.index(lrs[e]))
+            else:
+                red.append(None)
+        return lrs, tab, red
 
     @staticmethod
     def _sess_obs(s, disk, rec, ups):
@@ -352,7 +409,9 @@ class C16(PropertyCheck):
             ep = s.get("end_epoch")
         o = {"status": status, "start": s.get("start_epoch"), "epoch": ep,
              "trace": s.get("trace", []) if status == "crashed" else [],
-             "updates": ups, "disk": disk, "rec": rec, "final_state": s.get("final_state")}
+             "updates": ups, "disk": disk, "rec": rec, "final_state": s.get("final_state"),
+             "start_state": s.get("start_state"), "start_diff": s.get("start_diff"),
+             "final_diff": s.get("final_diff")}
         if s.get("masked_by"):
             o["masked_by"] = s["masked_by"]
         if s.get("unexpected_mutators"):
@@ -370,13 +429,16 @@ class C16(PropertyCheck):
         with R.Workspace() as ws:
             for cr in case["sched"]:
                 ups = []
-                s = R.session(case, ws, tuple(cr), record=ups)
-                sessions.append(self._sess_obs(s, R.snapshot(case, n, ws.state_dir, ws.csv), R.recover(case, ws), ups))
+                s = R.session(case, ws, tuple(cr), record=ups, ref=ref)
+                sessions.append(self._sess_obs(s, R.snapshot(case, n, ws.state_dir, ws.csv),
+                                               R.recover(case, ws, ref), ups))
             ups = []
-            s = R.session(case, ws, None, record=ups)
-            fin = self._sess_obs(s, R.snapshot(case, n, ws.state_dir, ws.csv), R.recover(case, ws), ups)
+            s = R.session(case, ws, None, record=ups, ref=ref)
+            fin = self._sess_obs(s, R.snapshot(case, n, ws.state_dir, ws.csv), R.recover(case, ws, ref), ups)
             csv = R.read_csv(ws)
+        lrs, tab, _ = self.lr_plan(case)
         obs = {"sessions": sessions, "final": fin, "csv_same": csv == ref["csv"],
+               "ref_lrs": lrs,
                "ref_completed": ref["status"].get("end_epoch") == n and "update_error" not in ref["status"]}
         self._impl[self.key(case)] = obs
         if len(self._impl) > 500:
@@ -399,10 +461,11 @@ class C16(PropertyCheck):
             "quirks": "fixed", "keep_lb": bool(case["keep_lb"]),
             "mkeys": R.keys_of(mn), "okeys": R.keys_of(on),
             "metrics": [[v[0], v[1]] for v in case["vals"]],
-            "best_is_train": bool(case.get("best_is_train", False)), "sched": sched}}
+            "best_is_train": bool(case.get("best_is_train", False)), "red": self.lr_plan(case)[2],
+            "sched": sched}}
 
     @staticmethod
-    def _cmp_session(tag, a, b, out):
+    def _cmp_session(tag, a, b, out, tab):
         if a["status"] != b["status"]:
             out.append(f"{tag}: status impl={a['status']} model={b['status']}")
             return
@@ -423,10 +486,10 @@ class C16(PropertyCheck):
             xa, xb = norm_trace(ua["trace"], True), norm_trace(ub["trace"], True)
             if ua["epoch"] != ub["epoch"] or xa != xb:
                 out.append(f"{tag}: update {ua['epoch']}: calls impl={xa} model={xb}")
-            if norm_disk(ua["disk"]) != norm_disk(ub["disk"]):
+            if norm_disk(ua["disk"]) != norm_disk(ub["disk"], tab):
                 out.append(f"{tag}: disk after update {ua['epoch']} impl={norm_disk(ua['disk'])} "
-                           f"model={norm_disk(ub['disk'])}")
-        da, db = norm_disk(a["disk"]), norm_disk(b["disk"])
+                           f"model={norm_disk(ub['disk'], tab)}")
+        da, db = norm_disk(a["disk"]), norm_disk(b["disk"], tab)
         if a["disk"].get("other"):
             out.append(f"{tag}: unclassified files {a['disk']['other']}")
         if da != db:
@@ -442,8 +505,8 @@ class C16(PropertyCheck):
                 out.append(f"{tag}: best epoch impl={ra['best']} model={rb['best']}")
             for nm in ("load_last", "load_best"):
                 va = None if ra[nm] and ra[nm][0] == "error" else ra[nm]
-                if va != rb[nm]:
-                    out.append(f"{tag}: {nm} impl={ra[nm]} model={rb[nm]}")
+                if va != norm_state(rb[nm], tab):
+                    out.append(f"{tag}: {nm} impl={ra[nm]} model={norm_state(rb[nm], tab)}")
         if a.get("unexpected"):
             out.append(f"{tag}: mutating entry points unknown to the model: {a['unexpected']}")
         if a.get("idle_ops"):
@@ -457,9 +520,10 @@ class C16(PropertyCheck):
         if "error" in impl:
             return [f"harness-level exception {impl['error']}: {impl.get('message')}"]
         out = []
+        tab = self.lr_plan(case)[1]
         for i, (a, b) in enumerate(zip(impl["sessions"], model["sessions"])):
-            self._cmp_session(f"session {i}", a, b, out)
-        self._cmp_session("final session", impl["final"], model["final"], out)
+            self._cmp_session(f"session {i}", a, b, out, tab)
+        self._cmp_session("final session", impl["final"], model["final"], out, tab)
         return out[:6]
 
     # ------------------------------------------------------------------ the property on the implementation
@@ -467,10 +531,23 @@ class C16(PropertyCheck):
         if "error" in impl:
             return [(f"harness-level exception {impl['error']}: {impl.get('message')}", "C16.harness")]
         n = len(case["vals"])
-        U = R.uninterrupted_states(n)
+        lrs, tab, _ = self.lr_plan(case)
+        # identity of the state saved for epoch e: (w, tag) by the training formula, the learning rate the
+        # uninterrupted history records for e
+        U = [[w, t, lrs[e]] for e, (w, t) in enumerate(R.uninterrupted_states(n))]
+        digs = self.reference(case)["digs"]     # digests of the uninterrupted run's state dicts per epoch
         ms = metric_ints(case)
         mn, on = R.names(case, n)
         mk, ok = R.keys_of(mn), R.keys_of(on)
+
+        def want_files(j):
+            """What the two checkpoint files of epoch j must hold (digest None: the uninterrupted run did
+            not get that far, only the identity is known)."""
+            dm, do = digs[j] if j < len(digs) else (None, None)
+            return ["model", U[j][0], dm], ["optim", U[j][1], U[j][2], do]
+
+        def holds(c, want):
+            return c is not None and list(c[:len(want) - 1]) == want[:-1] and (want[-1] is None or c[-1] == want[-1])
         # epoch 0 (the dummy entry) has a file name too: it takes part in the path comparisons of the update
         injective = len(set(mn[:n + 1])) == n + 1 and len(set(on[:n + 1])) == n + 1
         no_epoch = not has_epoch(case["model_fmt"]) or not has_epoch(case["optim_fmt"])
@@ -528,15 +605,15 @@ class C16(PropertyCheck):
             return None
 
         def is_mix(st):
-            return (isinstance(st, list) and len(st) == 2 and st[0] in [u[0] for u in U]
-                    and st[1] in [u[1] for u in U])
+            return (isinstance(st, list) and len(st) == 3 and st[0] in [u[0] for u in U]
+                    and st[1] in [u[1] for u in U] and st[2] in lrs)
 
         def load_kind(got):
             if is_mix(got):
                 return "other_epoch"
             if got == ["error", "FileNotFoundError"]:
                 return "missing"
-            if isinstance(got, list) and len(got) == 2 and got[0] != "error":
+            if isinstance(got, list) and len(got) == 3 and got[0] != "error":
                 return "tainted"
             return "x"
 
@@ -552,32 +629,52 @@ class C16(PropertyCheck):
                     want = {}
                     for j in (k, b):
                         if j >= 1:
-                            want[("model", mk[j])] = ["model", U[j][0]]
-                            want[("optim", ok[j])] = ["optim", U[j][1]]
-                    missing = [p for p in want if files.get(p) != want[p]]
+                            want[("model", mk[j])], want[("optim", ok[j])] = want_files(j)
+                    missing = [p for p in want if not holds(files.get(p), want[p])]
                     extra = [p for p in files if p not in want]
                     tmps = u["disk"]["tmps"]
                     if missing:
                         add(f"{tag}: after the completed update of epoch {k} the files {missing} of the last/best "
-                            f"epoch are missing or hold other content", "C16.exact.missing")
+                            f"epoch are missing or hold other content: "
+                            + "; ".join(f"{p[0]} file of epoch {p[1]} holds {files.get(p)}, the uninterrupted run "
+                                        f"had {want[p]} ([kind, w | optimizer tag, learning rate, digest of the whole state dict])"
+                                        for p in missing[:2]),
+                            "C16.exact.missing")
                     if extra or tmps or u["disk"]["other"]:
                         recorded_keys = {("model", mk[j]) for j in range(1, k + 1)} | {("optim", ok[j]) for j in range(1, k + 1)}
                         superseded = all(p in recorded_keys for p in extra)
                         mu = None
                         if ms_ is not None:
                             mu = next((x for x in ms_["updates"] if x["epoch"] == k), None)
-                        predicted = mu is not None and norm_disk(mu["disk"]) == norm_disk(u["disk"])
+                        predicted = mu is not None and norm_disk(mu["disk"], tab) == norm_disk(u["disk"])
                         sig = (LEAK if (crashed_before and superseded and not u["disk"]["other"] and predicted)
                                else "C16.exact.extra")
                         add(f"{tag}: after the completed update of epoch {k} the state directory holds more than the "
                             f"last ({k}) and best ({b}) epochs' files: extra={extra} temp files={len(tmps)}", sig)
                 if not keep and injective:
                     bad = [j for j in range(1, k + 1)
-                           if files.get(("model", mk[j])) != ["model", U[j][0]]
-                           or files.get(("optim", ok[j])) != ["optim", U[j][1]]]
+                           if not holds(files.get(("model", mk[j])), want_files(j)[0])
+                           or not holds(files.get(("optim", ok[j])), want_files(j)[1])]
                     if bad:
+                        j = bad[0]
                         add(f"{tag}: keep-everything run: after the update of epoch {k} recorded epochs {bad} are "
-                            f"not loadable with their own state", "C16.keepall.unloadable")
+                            f"not loadable with their own state: the files of epoch {j} hold "
+                            f"{files.get(('model', mk[j]))} / {files.get(('optim', ok[j]))}, the uninterrupted run "
+                            f"had {want_files(j)[0]} / {want_files(j)[1]} ([kind, w | optimizer tag, learning rate, "
+                            f"digest of the whole state dict])", "C16.keepall.unloadable")
+                # ---- what the process holds in memory after the update
+                if u.get("mem") is not None and u["mem"][2] != u.get("row_lr"):
+                    add(f"{tag}: after the completed update of epoch {k} the optimizer's parameter groups have "
+                        f"learning rate {u['mem'][2]}, the history row of the epoch records {u.get('row_lr')}",
+                        wsig("tainted", idx) or "C16.lr.optimizer_vs_history")
+                if u.get("mem") is not None and (u["mem"] != U[k] or u.get("mem_diff")):
+                    add(f"{tag}: after the completed update of epoch {k} the process holds {u['mem']} "
+                        f"{u.get('mem_diff') or ''}, the uninterrupted run {U[k]}",
+                        wsig("tainted", idx) or "C16.resume.state_after_update")
+            if s.get("start_diff"):
+                add(f"{tag}: the state a new process holds after loading the last recorded epoch {s['start']} "
+                    f"differs from the uninterrupted run's after that epoch: {s['start_diff']}",
+                    wsig("tainted", idx) or "C16.resume.start_state")
             # ---- the process itself
             st = s["status"]
             if st == "refused":
@@ -622,8 +719,16 @@ class C16(PropertyCheck):
                         checks.append(("best", b, r["load_best"]))
                     for nm, ep, got in checks:
                         if got != list(U[ep]):
-                            add(f"{tag}: history records {k} epochs; loading the {nm} epoch {ep} gives {got}, "
-                                f"saved for it was {list(U[ep])}", wsig(load_kind(got), idx) or "C16.recover.load_" + nm)
+                            add(f"{tag}: history records {k} epochs; loading the {nm} epoch {ep} gives {got} "
+                                f"(w, optimizer tag, learning rate), saved for it was {list(U[ep])}",
+                                wsig(load_kind(got), idx) or "C16.recover.load_" + nm)
+                        elif r.get("load_" + nm + "_diff"):
+                            add(f"{tag}: history records {k} epochs; the state loaded for the {nm} epoch {ep} "
+                                f"is not the one the uninterrupted run had after that epoch: "
+                                f"{r['load_' + nm + '_diff']}", "C16.recover.state_" + nm)
+                    if r.get("row_lrs") != lrs[1:k + 1]:
+                        add(f"{tag}: recorded learning rates {r.get('row_lrs')} differ from the uninterrupted "
+                            f"history's {lrs[1:k + 1]}", "C16.history.lr")
                     if case.get("user_entry") and r.get("user_vals") != [R.user_value(j) for j in r["rows"]]:
                         add(f"{tag}: user entries read back {r.get('user_vals')}, written "
                             f"{[R.user_value(j) for j in r['rows']]}", "C16.history.user_entry")
@@ -643,8 +748,9 @@ class C16(PropertyCheck):
                 add(f"the continued run stops at epoch {fin['epoch']} of {n}", "C16.resume.stops")
             if not impl["csv_same"]:
                 add("the continued run's history file differs from the uninterrupted run's", "C16.resume.history")
-            if fin["final_state"] != list(U[n]):
-                add(f"the continued run ends in state {fin['final_state']}, uninterrupted: {list(U[n])}",
+            if fin["final_state"] != list(U[n]) or fin.get("final_diff"):
+                add(f"the continued run ends in state {fin['final_state']} {fin.get('final_diff') or ''}, "
+                    f"uninterrupted: {list(U[n])}",
                     wsig("final", len(all_sessions) - 1) or "C16.resume.state")
         return fails
 
@@ -662,17 +768,29 @@ class C16(PropertyCheck):
                 t.append("fmt=" + name)
         if case.get("best_is_train"):
             t.append("best_is_train")
-        for k in ("user_entry", "explicit_epoch", "extra_params"):
+        for k in ("user_entry", "explicit_epoch"):
             if case.get(k):
-                t.append(k if k != "extra_params" else "early_stop+reduce_lr")
+                t.append(k)
+        t.append("optim=" + case.get("optim", "sgd"))
+        if case.get("extra_params"):
+            t.append("early_stop+reduce_lr" if "early_stopping_threshold" in case["extra_params"] else "reduce_lr_only")
+            t.append("lr_from=" + ("params" if case["extra_params"].get("log10_learning_rate") is not None
+                                   else "optimizer_defaults"))
         if any(len(c) > 3 and c[3] for c in case["sched"]):
             t.append("soft_interrupt")
-        if case.get("extra_params"):
-            ref = (self.reference(case)["csv"] or "").splitlines()[1:]
-            if len({l.split(",")[5] for l in ref}) > 1:
-                t.append("lr_reduced_during_run")
+        lrs = self.lr_plan(case)[0]
+        red_at = [e for e in range(1, len(lrs)) if lrs[e] != lrs[e - 1]]
+        if red_at:
+            t.append("lr_reduced_during_run")
+            t.append(f"lr_reductions={len(red_at)}")
         if "error" in impl:
             return t
+        for s in impl["sessions"] + [impl["final"]]:
+            if s.get("start") in red_at and s["status"] != "stuck_init":
+                t.append("restart_from_lr_reduction_epoch")
+            r = s["rec"]
+            if "init_error" not in r and r.get("best") in red_at and r.get("best") != r.get("last"):
+                t.append("best_epoch_is_lr_reduction_epoch")
         for s in impl["sessions"]:
             if s["status"] == "crashed":
                 t.append(f"crash_after_calls={len(s['trace'])}")
@@ -710,7 +828,7 @@ class C16(PropertyCheck):
                 yield dict(case, sched=sch[:i] + [[c[0], c[1], False] + list(c[3:])] + sch[i + 1:])
             if len(c) > 3 and c[3]:
                 yield dict(case, sched=sch[:i] + [list(c[:3])] + sch[i + 1:])
-        for k in ("best_is_train", "user_entry", "explicit_epoch", "extra_params"):
+        for k in ("best_is_train", "user_entry", "explicit_epoch", "extra_params", "optim"):
             if case.get(k):
                 c = dict(case)
                 c.pop(k)
